@@ -24,16 +24,16 @@ def drop(path):
     shutil.rmtree(path, ignore_errors=True)
 
 
-def verify(pid, i):
-    src = '/tmp/mut/%s/out' % pid
-    name = '%s-m%s' % (pid, i)
+def verify(pid, i, root='/tmp/mut', tag='m'):
+    src = '%s/%s/out' % (root, pid)
+    name = '%s-%s%s' % (pid, tag, i)
     dst = os.path.join(ROOT, 'seeded', name)
     os.makedirs(dst, exist_ok=True)
     if os.path.exists(os.path.join(src, 'm%s.diff' % i)):
         shutil.copy(os.path.join(src, 'm%s.diff' % i), os.path.join(dst, 'patch.diff'))
         demo = open(os.path.join(src, 'm%s_demo.py' % i)).read()
         open(os.path.join(dst, 'demo.py'), 'w').write(demo)
-    wt = '/tmp/mut/%s' % pid          # the path of the writer's worktree (demos may assert their import path)
+    wt = '%s/%s' % (root, pid)          # the path of the writer's worktree (demos may assert their import path)
     if not os.path.exists(os.path.join(wt, 'inference')):
         worktree(wt)
     sh(['git', '-C', wt, 'checkout', '--', '.'])
@@ -90,6 +90,6 @@ def run(name, checks):
 
 if __name__ == '__main__':
     if sys.argv[1] == 'verify':
-        verify(sys.argv[2], sys.argv[3])
+        verify(*sys.argv[2:])
     else:
         run(sys.argv[2], sys.argv[3:])
